@@ -297,13 +297,18 @@ def IR.joinSyms (ir : IR) (b1 : Block) (id2 : Nat) : IR :=
       else s) }
 
 /-- CFG of two joined code blocks -/
-def IR.joinCode (ir : IR) (b1 : Block) (id2 : Nat) : IR :=
+def IR.joinCode (ir : IR) (b1 : Block) (id2 size2 : Nat) : IR :=
+  let flowsIn := (ir.inEdges id2).any (fun e => Edge.isFall e && e.src == .block b1.id)
   let i1 := (ir.inEdges id2).foldl (fun ir e =>
     if Edge.isFall e && e.src == .block b1.id then { ir with cfg := cfgDiscard ir.cfg e } else ir) ir
   let i2 := if b1.size == 0 then
       (i1.inEdges id2).foldl (fun ir e => ir.updateEdge e (updDst e (.block b1.id))) i1
     else (i1.inEdges id2).foldl (fun ir e => { ir with cfg := cfgDiscard ir.cfg e }) i1
-  let i3 := (i2.outEdges id2).foldl (fun ir e => ir.updateEdge e (updSrc e (.block b1.id))) i2
+  -- an empty block2 that block1 does not fall into (block1 ends in a jump or return) is dead:
+  -- its fallthrough is dropped, not inherited
+  let i3 := if b1.size != 0 && size2 == 0 && !flowsIn then
+      (i2.outEdges id2).foldl (fun ir e => { ir with cfg := cfgDiscard ir.cfg e }) i2
+    else (i2.outEdges id2).foldl (fun ir e => ir.updateEdge e (updSrc e (.block b1.id))) i2
   i3.removeFunctionBlock id2
 
 def joinOmaps (omaps : List (String × List (Elem × Nat × String))) (id1 size1 id2 : Nat) :
@@ -341,7 +346,7 @@ def IR.joinBlocks (ir : IR) (id1 id2 : Nat) : Except Err IR :=
       | none => .error (.assertion "block2.section")
       | some sect =>
         let ir1 := ir.joinSyms b1 id2
-        let ir2 := if b2.isCode then ir1.joinCode b1 id2 else ir1
+        let ir2 := if b2.isCode then ir1.joinCode b1 id2 b2.size else ir1
         let ir3 := ir2.joinTables b1 id2
         let ir4 := ir3.setBlock { b1 with size := b1.size + b2.size }
         let ir5 := ir4.orderRemove sect id2
